@@ -121,7 +121,7 @@ def main():
         if len(samples) < 2 and res.get("sample") is not None:
             samples.append(res["sample"])
         for v in res["violations"]:
-            rec = {"t": "viol", "idx": idx, "key": v["key"], "detail": v.get("detail"), "payload": payload}
+            rec = {"t": "viol", "idx": idx, "key": v["key"], "detail": v.get("detail"), "payload": v.get("payload", payload)}
             if "shrunk" in v:
                 rec["shrunk"] = v["shrunk"]
             out.write(json.dumps(rec, default=str) + "\n")
